@@ -18,17 +18,18 @@ import (
 // C13 - queries are pure and deterministic: no input is mutated, repeats agree.
 
 type c13Op struct {
-	Op   string `json:"op"`             // exec reexec subslice rebuild unmarshal
-	Expr int    `json:"expr,omitempty"` // index into Exprs
-	Node string `json:"node,omitempty"` // context node ref
-	V    int    `json:"v,omitempty"`    // held node-set bound to $v (-1: none)
-	W    int    `json:"w,omitempty"`    // held node-set bound to $w (-1: none; may equal V: the same slice twice)
-	Hold bool   `json:"hold,omitempty"` // keep the result (if a node-set) as a caller-held slice
-	Alt  bool   `json:"alt,omitempty"`  // use the second namespace map (x and y swapped)
-	Idx  int    `json:"idx,omitempty"`  // reexec: index of the earlier exec op; subslice/unmarshal: held index
-	I    int    `json:"i,omitempty"`
-	J    int    `json:"j,omitempty"`
-	K    int    `json:"k,omitempty"`
+	Op    string `json:"op"`               // exec reexec subslice rebuild unmarshal
+	Expr  int    `json:"expr,omitempty"`   // index into Exprs
+	Node  string `json:"node,omitempty"`   // context node ref
+	V     int    `json:"v,omitempty"`      // held node-set bound to $v (-1: none)
+	W     int    `json:"w,omitempty"`      // held node-set bound to $w (-1: none; may equal V: the same slice twice)
+	Hold  bool   `json:"hold,omitempty"`   // keep the result (if a node-set) as a caller-held slice
+	Alt   bool   `json:"alt,omitempty"`    // use the second namespace map (x and y swapped) and the second values of $n, $s
+	BindK bool   `json:"kbound,omitempty"` // additionally bind the prefix k with xsel.WithNS
+	Idx   int    `json:"idx,omitempty"`    // reexec: index of the earlier exec op; subslice/unmarshal: held index
+	I     int    `json:"i,omitempty"`
+	J     int    `json:"j,omitempty"`
+	K     int    `json:"k,omitempty"`
 }
 
 type c13Case struct {
@@ -86,6 +87,7 @@ type execRecord struct {
 	expr   int
 	node   string
 	alt    bool
+	k      bool
 	v, w   int
 	result string
 	err    bool
@@ -146,6 +148,10 @@ func checkC13(c *c13Case) error {
 		for k, v := range vars {
 			callVars[k] = v
 		}
+		if op.Alt {
+			callVars[xsel.XmlName{Local: "n"}] = xsel.Number(3)
+			callVars[xsel.XmlName{Local: "s"}] = xsel.String("2")
+		}
 		if op.V >= 0 && op.V < len(held) {
 			callVars[xsel.XmlName{Local: "v"}] = held[op.V].ns
 		} else {
@@ -169,7 +175,16 @@ func checkC13(c *c13Case) error {
 		if n == nil {
 			n = p.doc.Root
 		}
-		r, err := safeExec(p.loc.ToCur[n], g, apply)
+		settings := []xsel.ContextApply{apply}
+		if op.BindK {
+			settings = append(settings, xsel.WithNS("k", "urn:x"))
+		}
+		r, err := safeExec(p.loc.ToCur[n], g, settings...)
+		if op.BindK {
+			// WithNS wrote into the caller's map: take it out again (the caller owns the map)
+			delete(nsMap, "k")
+			delete(nsAlt, "k")
+		}
 		if len(callVars) != before {
 			return "the caller's variable map changed", true, nil
 		}
@@ -200,7 +215,11 @@ func checkC13(c *c13Case) error {
 				return fmt.Errorf("step %d (%s): %s", step, what, snap)
 			}
 			st.Eval(1)
-			records[step] = execRecord{op.Expr, op.Node, op.Alt, op.V, op.W, snap, isErr}
+			records[step] = execRecord{op.Expr, op.Node, op.Alt, op.BindK, op.V, op.W, snap, isErr}
+			// a prefix is bound only for the query it was bound for
+			if strings.Contains(c.Exprs[op.Expr], "k:") && !op.BindK && !isErr && op.Node == "/" {
+				return fmt.Errorf("step %d (%s): the prefix k is not bound for this query (an earlier query bound it) but the query succeeded: %s", step, what, snap)
+			}
 			// a variable evaluates to the value bound under the query's OWN bindings,
 			// whatever bindings earlier queries used
 			if c.Exprs[op.Expr] == "$x:n" || c.Exprs[op.Expr] == "$y:n" {
@@ -224,7 +243,7 @@ func checkC13(c *c13Case) error {
 				continue
 			}
 			what = fmt.Sprintf("re-exec of step %d: %q from %s", op.Idx, c.Exprs[rec.expr], rec.node)
-			snap, _, _ := doExec(c13Op{Expr: rec.expr, Node: rec.node, Alt: rec.alt, V: rec.v, W: rec.w}, exprs[rec.expr])
+			snap, _, _ := doExec(c13Op{Expr: rec.expr, Node: rec.node, Alt: rec.alt, BindK: rec.k, V: rec.v, W: rec.w}, exprs[rec.expr])
 			st.Eval(1)
 			reexecs++
 			if snap != rec.result {
@@ -282,7 +301,7 @@ func checkC13(c *c13Case) error {
 		if err != nil {
 			return fmt.Errorf("BuildExpr(%q) failed on a repeat: %v", c.Exprs[rec.expr], err)
 		}
-		snap, _, _ := doExec(c13Op{Expr: rec.expr, Node: rec.node, Alt: rec.alt, V: rec.v, W: rec.w}, &g)
+		snap, _, _ := doExec(c13Op{Expr: rec.expr, Node: rec.node, Alt: rec.alt, BindK: rec.k, V: rec.v, W: rec.w}, &g)
 		st.Eval(1)
 		if snap != rec.result {
 			return fmt.Errorf("a freshly built %q from %s gave a different result than the reused expression at step %d", c.Exprs[rec.expr], rec.node, step)
@@ -310,7 +329,8 @@ func TestC13(t *testing.T) {
 		g := &xast.G{T: t, Env: xast.GenEnv{ElemNames: queryable(elems), AttrNames: queryable(attrs), Prefixes: []string{"x", "y"}, NumVars: []string{"n"}, StrVars: []string{"s"}, NodeVars: []string{"v", "w"}, NoLang: true}}
 		c := &c13Case{Events: ev}
 		fixed := []string{"$v | //a", "//a | $v", "$v | $v", "$v | $w", "$v | /nope", "($v | $w)[1]", "$v/..", "$v[1]", "$v[last()]", "count($v | //b)", "//node()", "//*/ancestor::*", "//@*/..", "$w//text()", "$v/ancestor::*/@*",
-			"$v/self::a", "$v/self::*", "$w/self::b", "count($v/self::b)", "$v/self::node()[1]", "$x:n", "$x:n + count(//x:a)", "//x:*", "$y:n"}
+			"$v/self::a", "$v/self::*", "$w/self::b", "count($v/self::b)", "$v/self::node()[1]", "$x:n", "$x:n + count(//x:a)", "//x:*", "$y:n",
+			"//a[//b[. = $n]]", "//*[count(//a[. >= $n]) > 0]", "//a[/descendant::b = $s]", "//*[. = //a[. = $n]]", "//k:*", "count(//k:a)", "//*[k:b]"}
 		for i, n := 0, rapid.IntRange(3, 6).Draw(t, "nExprs"); i < n; i++ {
 			if rapid.Bool().Draw(t, "fixedExpr") {
 				c.Exprs = append(c.Exprs, fixed[rapid.IntRange(0, len(fixed)-1).Draw(t, "fixed")])
@@ -323,7 +343,7 @@ func TestC13(t *testing.T) {
 		for i, n := 0, rapid.IntRange(4, 25).Draw(t, "nOps"); i < n; i++ {
 			switch k := rapid.IntRange(0, 9).Draw(t, "op"); {
 			case k <= 4 || nHeld == 0:
-				op := c13Op{Op: "exec", Expr: rapid.IntRange(0, len(c.Exprs)-1).Draw(t, "expr"), V: -1, W: -1, Hold: rapid.Bool().Draw(t, "hold"), Alt: rapid.IntRange(0, 2).Draw(t, "altBindings") == 0}
+				op := c13Op{Op: "exec", Expr: rapid.IntRange(0, len(c.Exprs)-1).Draw(t, "expr"), V: -1, W: -1, Hold: rapid.Bool().Draw(t, "hold"), Alt: rapid.IntRange(0, 2).Draw(t, "altBindings") == 0, BindK: rapid.IntRange(0, 2).Draw(t, "bindK") == 0}
 				op.Node = doc.All[rapid.IntRange(0, len(doc.All)-1).Draw(t, "node")].Ref()
 				if rapid.Bool().Draw(t, "fromRoot") {
 					op.Node = "/"
